@@ -45,7 +45,7 @@ def free_vars(e):
     if k == "trans":
         return free_vars(e["d"]) | set(aff_vars(e["t"]))
     if k == "rot":
-        return free_vars(e["d"]) | set(aff_vars(e["p"])) | ({e["an"]} if e.get("m") == "quarter" else set())
+        return free_vars(e["d"]) | set(aff_vars(e["p"])) | ({e["an"], e.get("an2", "")} - {""} if e.get("m") == "quarter" else set())
     return free_vars(e["d"])
 
 
